@@ -1683,7 +1683,7 @@ var aggAssumptions = []string{
 
 func TestC04Group(t *testing.T) {
 	fw.Run(t, fw.Spec[tblCase]{
-		ID: "C04", Name: "group", Quick: 6000, Thorough: 120000,
+		ID: "C04", Name: "group", Quick: 5000, Thorough: 100000,
 		Gen:         func(t *rapid.T) tblCase { return genTbl(t, tblOpt{kinds: []string{"group"}}) },
 		Check:       checkTbl,
 		Rule:        "table (temp typed / CSV text) with unique id, 0-3 key columns drawn from clusters of spellings equal across types plus ':' and marker texts, x numeric-ish, s text; SELECT LISTAGG(id), 22 aggregates, key columns GROUP BY keys [WHERE] and a second query with HAVING; csvq's buckets vs E_strict/E_loose, every aggregate recomputed over csvq's bucket; CPU 4 with 160-230 rows in 10%; non-trivial = >=2 keys with a ':'/marker cell, or two rows equal across spellings, or an empty group; distinct by (kind, #keys, traits, cell classes, strict)",
@@ -1693,7 +1693,7 @@ func TestC04Group(t *testing.T) {
 
 func TestC04Distinct(t *testing.T) {
 	fw.Run(t, fw.Spec[tblCase]{
-		ID: "C04", Name: "distinct", Quick: 6000, Thorough: 120000,
+		ID: "C04", Name: "distinct", Quick: 5000, Thorough: 100000,
 		Gen:         func(t *rapid.T) tblCase { return genTbl(t, tblOpt{kinds: []string{"distinct"}}) },
 		Check:       checkTbl,
 		Rule:        "same tables; SELECT DISTINCT keys [WHERE]: every result row is an input row, no two result rows E_strict-equal, every input row has an E_loose-equal result row; non-trivial and distinct as in group",
@@ -1703,7 +1703,7 @@ func TestC04Distinct(t *testing.T) {
 
 func TestC04Partition(t *testing.T) {
 	fw.Run(t, fw.Spec[tblCase]{
-		ID: "C04", Name: "partition", Quick: 5000, Thorough: 100000,
+		ID: "C04", Name: "partition", Quick: 4000, Thorough: 80000,
 		Gen:         func(t *rapid.T) tblCase { return genTbl(t, tblOpt{kinds: []string{"partition"}}) },
 		Check:       checkTbl,
 		Rule:        "same tables; SELECT id, LISTAGG(id) OVER (PARTITION BY keys), aggregates OVER (PARTITION BY keys): the partitions reported by the rows form one partition of the table, which is held against E_strict/E_loose; every aggregate recomputed per row over its partition",
@@ -2030,7 +2030,7 @@ var setAssumptions = []string{
 
 func TestC04SetOp(t *testing.T) {
 	fw.Run(t, fw.Spec[setCase]{
-		ID: "C04", Name: "setop", Quick: 8000, Thorough: 160000,
+		ID: "C04", Name: "setop", Quick: 7000, Thorough: 140000,
 		Gen:         func(t *rapid.T) setCase { return genSet(t, false) },
 		Check:       checkSet,
 		Rule:        "two tables (temp typed / CSV text) of 1-3 key columns from the same clusters; a UNION|EXCEPT|INTERSECT [ALL] b: UNION ALL is the multiset sum; UNION survivors as in distinct; EXCEPT/INTERSECT: left rows with an E_strict match on the right must be dropped/kept, rows without an E_loose match kept/dropped, ALL keeps every copy, without ALL no two result rows E_strict-equal; non-trivial as in group (empty = an empty side or empty result)",
@@ -2045,5 +2045,597 @@ func TestC04CollisionSet(t *testing.T) {
 		Check:       checkSet,
 		Rule:        "collision search for the set operators: the colliding pair of collision_tbl placed on the two sides or both on the left",
 		Assumptions: setAssumptions,
+	})
+}
+
+// ---------------------------------------------------------------------
+// SELECT DISTINCT with analytic functions in the select list and in ORDER BY:
+// the buckets of DISTINCT and the partitions of both analytic functions over
+// the same key columns must be the reference partition - in particular the
+// partitions of the ORDER BY function, which is evaluated after DISTINCT has
+// removed rows, must not be taken from the rows before DISTINCT.
+
+type ordCase struct {
+	Src        string      `json:"src"`
+	Strict     bool        `json:"strict"`
+	CPU        int         `json:"cpu"`
+	NKeys      int         `json:"nkeys"`
+	KeysFirst  bool        `json:"keys_first"` // table columns k1..kn, id, x (else id, k1..kn, x)
+	Rows       [][]val.Val `json:"rows"`       // id, k1..kn, x
+	SelOrder   []int       `json:"sel_order"`  // order of the key columns in the select list (0-based key numbers)
+	APos       int         `json:"a_pos"`      // position of the analytic column a among the key columns
+	AFn        string      `json:"a_fn"`       // COUNT(x) | COUNT(*) | SUM(x)
+	SelPart    []int       `json:"sel_part"`   // PARTITION BY of a and ids
+	OrdFn      string      `json:"ord_fn"`     // COUNT(*) | COUNT(k) | SUM(a) | COUNT(a)
+	OrdArg     int         `json:"ord_arg"`    // the k of COUNT(k)
+	OrdPart    []int       `json:"ord_part"`   // PARTITION BY of the ORDER BY function
+	Desc       bool        `json:"desc"`
+	Tiebreak   []int       `json:"tiebreak,omitempty"` // further plain ORDER BY items (their effect is not asserted)
+	WhereMinID int         `json:"where_min_id"`
+}
+
+func genSubset(t *rapid.T, label string, n int) []int {
+	var out []int
+	for i := 0; i < n; i++ {
+		if fw.Pct(t, label, 50) {
+			out = append(out, i)
+		}
+	}
+	if len(out) == 0 {
+		out = []int{fw.Uniform(t, label+"One", n)}
+	}
+	return out
+}
+
+func genOrd(t *rapid.T) ordCase {
+	c := ordCase{Src: "temp", CPU: 1}
+	if fw.Pct(t, "csv", 40) {
+		c.Src = "csv"
+	}
+	csv := c.Src == "csv"
+	c.Strict = fw.Pct(t, "strict", 30)
+	c.NKeys = 1 + fw.Weighted(t, "nKeys", []int{15, 55, 30})
+	c.KeysFirst = fw.Pct(t, "keysFirst", 60)
+	large := fw.Pct(t, "large", 6)
+	n := fw.Range(t, "n", 2, 14)
+	if large {
+		n = fw.Range(t, "nLarge", 160, 200)
+		c.CPU = 4
+	} else if fw.Pct(t, "cpu2", 15) {
+		c.CPU = 2
+	}
+	// per key column a few clusters; of each cluster only spellings that are
+	// certainly equal to one another, so that the partitions are determined
+	pools := make([][][]val.Val, c.NKeys)
+	for k := range pools {
+		np := fw.Range(t, "poolSize", 1, 3)
+		for i := 0; i < np; i++ {
+			var from []int
+			switch fw.Weighted(t, "clusterClass", []int{35, 10, 25, 22, 8}) {
+			case 0:
+				from = crossIdx
+			case 1:
+				from = dtIdx
+			case 2:
+				from = textIdx
+			case 3:
+				from = delimIdx
+			default:
+				from = nullIdx
+			}
+			cl := clusters[fw.PickU(t, "cluster", from)]
+			base := fw.PickU(t, "base", cl.vals)
+			if csv {
+				base = csvForm(base)
+			}
+			bn := ref.C04Normalise(base, c.Strict)
+			var vs []val.Val
+			for _, v := range cl.vals {
+				if csv {
+					v = csvForm(v)
+				}
+				if ref.C04EStrict(bn, ref.C04Normalise(v, c.Strict), c.Strict) {
+					vs = append(vs, v)
+				}
+			}
+			if len(vs) == 0 {
+				vs = []val.Val{base}
+			}
+			pools[k] = append(pools[k], vs)
+		}
+	}
+	ids := make([]int, n)
+	for i := range ids {
+		ids[i] = i + 1
+	}
+	ids = rapid.Permutation(ids).Draw(t, "ids")
+	nullPct := fw.Range(t, "nullPct", 0, 40)
+	for i := 0; i < n; i++ {
+		row := []val.Val{val.Int(int64(ids[i]))}
+		for k := 0; k < c.NKeys; k++ {
+			vs := fw.PickU(t, "cl", pools[k])
+			row = append(row, fw.PickU(t, "spelling", vs))
+		}
+		x := val.Null
+		if !fw.Pct(t, "xNull", nullPct) {
+			x = val.Int(int64(fw.Range(t, "x", -3, 9)))
+		}
+		row = append(row, x)
+		if csv {
+			row[0] = csvForm(row[0])
+			row[len(row)-1] = csvForm(x)
+		}
+		c.Rows = append(c.Rows, row)
+	}
+	order := make([]int, c.NKeys)
+	for i := range order {
+		order[i] = i
+	}
+	if c.NKeys > 1 && fw.Pct(t, "permuteSelect", 50) {
+		order = rapid.Permutation(order).Draw(t, "selOrder")
+	}
+	c.SelOrder = order
+	c.APos = fw.Uniform(t, "aPos", c.NKeys+1)
+	if fw.Pct(t, "aLast", 50) {
+		c.APos = c.NKeys
+	}
+	c.AFn = fw.PickU(t, "aFn", []string{"COUNT(x)", "COUNT(*)", "SUM(x)"})
+	c.SelPart = genSubset(t, "selPart", c.NKeys)
+	c.OrdFn = []string{"COUNT(*)", "COUNT(k)", "SUM(a)", "COUNT(a)"}[fw.Weighted(t, "ordFn", []int{25, 15, 48, 12})]
+	c.OrdArg = fw.Uniform(t, "ordArg", c.NKeys)
+	c.OrdPart = genSubset(t, "ordPart", c.NKeys)
+	if c.NKeys >= 2 && len(c.OrdPart) == c.NKeys && fw.Pct(t, "properOrdPart", 85) {
+		// all keys: after DISTINCT every partition is a single row; drop one column
+		drop := fw.Uniform(t, "dropOrdPart", c.NKeys)
+		c.OrdPart = append(append([]int(nil), c.OrdPart[:drop]...), c.OrdPart[drop+1:]...)
+	}
+	if c.NKeys == 1 && c.OrdFn != "COUNT(a)" {
+		c.OrdFn = "SUM(a)"
+	}
+	c.Desc = fw.Pct(t, "desc", 50)
+	if fw.Pct(t, "tiebreak", 40) {
+		c.Tiebreak = genSubset(t, "tiebreakCols", c.NKeys)
+	}
+	if fw.Pct(t, "where", 12) {
+		c.WhereMinID = fw.Range(t, "whereMin", 1, n-1)
+	}
+	return c
+}
+
+func kName(k int) string { return fmt.Sprintf("k%d", k+1) }
+
+func kNames(ks []int) string {
+	parts := make([]string, len(ks))
+	for i, k := range ks {
+		parts[i] = kName(k)
+	}
+	return strings.Join(parts, ", ")
+}
+
+// tableLayout: column names and rows in the order of the table's columns.
+func (c ordCase) tableLayout() ([]string, [][]val.Val) {
+	var cols []string
+	for k := 0; k < c.NKeys; k++ {
+		cols = append(cols, kName(k))
+	}
+	if !c.KeysFirst {
+		return append(append([]string{"id"}, cols...), "x"), c.Rows
+	}
+	cols = append(cols, "id", "x")
+	rows := make([][]val.Val, len(c.Rows))
+	for i, r := range c.Rows {
+		row := append([]val.Val(nil), r[1:1+c.NKeys]...)
+		rows[i] = append(row, r[0], r[1+c.NKeys])
+	}
+	return cols, rows
+}
+
+func (c ordCase) sql() string {
+	var items []string
+	a := fmt.Sprintf("%s OVER (PARTITION BY %s) AS a", c.AFn, kNames(c.SelPart))
+	for i, k := range c.SelOrder {
+		if i == c.APos {
+			items = append(items, a)
+		}
+		items = append(items, kName(k))
+	}
+	if c.APos >= len(c.SelOrder) {
+		items = append(items, a)
+	}
+	items = append(items, fmt.Sprintf("LISTAGG(id, ',') OVER (PARTITION BY %s) AS ids", kNames(c.SelPart)))
+	fn := c.OrdFn
+	if fn == "COUNT(k)" {
+		fn = "COUNT(" + kName(c.OrdArg) + ")"
+	}
+	ord := fmt.Sprintf("%s OVER (PARTITION BY %s)", fn, kNames(c.OrdPart))
+	if c.Desc {
+		ord += " DESC"
+	}
+	for _, k := range c.Tiebreak {
+		ord += ", " + kName(k)
+	}
+	where := ""
+	if c.WhereMinID > 0 {
+		where = fmt.Sprintf(" WHERE id > %d", c.WhereMinID)
+	}
+	return "SELECT DISTINCT " + strings.Join(items, ", ") + " FROM t" + where + " ORDER BY " + ord
+}
+
+func sub(t ref.C04Tuple, cols []int) ref.C04Tuple {
+	out := make(ref.C04Tuple, len(cols))
+	for i, c := range cols {
+		out[i] = t[c]
+	}
+	return out
+}
+
+// ordValue: the value of the ORDER BY function for one row given the rows of its partition.
+type ordRow struct {
+	keys []val.Val
+	a    val.Val
+}
+
+func ordValue(fn string, arg int, part []ordRow) (float64, bool) {
+	switch fn {
+	case "COUNT(*)":
+		return float64(len(part)), true
+	case "COUNT(k)":
+		n := 0
+		for _, r := range part {
+			if !r.keys[arg].IsNull() {
+				n++
+			}
+		}
+		return float64(n), true
+	case "COUNT(a)":
+		n := 0
+		for _, r := range part {
+			if !r.a.IsNull() {
+				n++
+			}
+		}
+		return float64(n), true
+	}
+	// SUM(a)
+	var fs []float64
+	for _, r := range part {
+		if f, ok := numOf(r.a); ok {
+			fs = append(fs, f)
+		}
+	}
+	if len(fs) == 0 {
+		return 0, false
+	}
+	return ref.C04Sum(fs), true
+}
+
+type ordVal struct {
+	f    float64
+	null bool
+}
+
+// sortedBy: the sequence is in ORDER BY order: ASC puts NULL first and then
+// ascends, DESC descends and puts NULL last (manual, order by clause).
+func sortedBy(vs []ordVal, desc bool) bool {
+	for i := 1; i < len(vs); i++ {
+		p, q := vs[i-1], vs[i]
+		if !desc {
+			if q.null && !p.null {
+				return false
+			}
+			if !p.null && !q.null && p.f > q.f && !ref.C04Close(p.f, q.f) {
+				return false
+			}
+		} else {
+			if p.null && !q.null {
+				return false
+			}
+			if !p.null && !q.null && p.f < q.f && !ref.C04Close(p.f, q.f) {
+				return false
+			}
+		}
+	}
+	return true
+}
+
+func checkOrd(c ordCase) (fw.Outcome, *fw.Violation) {
+	o := fw.Outcome{Classes: []string{"src:" + c.Src, fmt.Sprintf("nkeys:%d", c.NKeys), fmt.Sprintf("strict:%v", c.Strict), fmt.Sprintf("cpu:%d", c.CPU),
+		"afn:" + c.AFn, "ordfn:" + c.OrdFn, fmt.Sprintf("keys_first:%v", c.KeysFirst)}}
+	if outsideModel(c.Rows) {
+		o.Discard = true
+		return o, nil
+	}
+	// rows that pass the WHERE clause
+	type pre struct {
+		id   int
+		keys []val.Val
+		x    val.Val
+		norm ref.C04Tuple
+	}
+	var pres []pre
+	posOf := map[int]int{}
+	for _, r := range c.Rows {
+		id, _ := strconv.Atoi(r[0].S)
+		if c.WhereMinID > 0 && id <= c.WhereMinID {
+			continue
+		}
+		posOf[id] = len(pres)
+		keys := r[1 : 1+c.NKeys]
+		pres = append(pres, pre{id, keys, r[1+c.NKeys], ref.C04NormaliseTuple(keys, c.Strict)})
+	}
+
+	dir := fw.WorkDir()
+	cols, rows := c.tableLayout()
+	if c.Src == "csv" {
+		d, err := os.MkdirTemp(fw.WorkDir(), "c04-")
+		if err != nil {
+			return o, fw.Harness("mkdir: %v", err)
+		}
+		defer os.RemoveAll(d)
+		dir = d
+		if err := run.WriteFiles(dir, map[string]string{"t.csv": csvText(cols, rows)}); err != nil {
+			return o, fw.Harness("write: %v", err)
+		}
+	}
+	s, hv := openSession(dir, c.CPU, c.Strict)
+	if hv != nil {
+		return o, hv
+	}
+	defer s.Close()
+	if c.Src == "temp" {
+		setup := declareSQL("t", cols, rows)
+		if r := s.Exec(setup); r.Err != nil {
+			return o, fw.Harness("setup failed: %v\n%s", r.Err, setup)
+		}
+	}
+	sql := c.sql()
+	tbl, err := s.Query(sql)
+	if err != nil {
+		return o, fw.V("query_error", "%s: %v", sql, err)
+	}
+
+	// decode the result rows
+	type resRow struct {
+		keys   []val.Val
+		norm   ref.C04Tuple
+		a      val.Val
+		ids    string
+		bucket []int
+	}
+	res := make([]resRow, len(tbl.Rows))
+	bucketOf := make([]int, len(pres))
+	for i := range bucketOf {
+		bucketOf[i] = -1
+	}
+	bucketNo := map[string]int{}
+	var buckets [][]int
+	for i, row := range tbl.Rows {
+		if len(row) != c.NKeys+2 {
+			return o, fw.Harness("%s: %d columns", sql, len(row))
+		}
+		keys := make([]val.Val, c.NKeys)
+		p := 0
+		for j, k := range c.SelOrder {
+			if j == c.APos {
+				p++
+			}
+			keys[k] = row[p]
+			p++
+		}
+		aPos := c.APos
+		if aPos > c.NKeys {
+			aPos = c.NKeys
+		}
+		rr := resRow{keys: keys, norm: ref.C04NormaliseTuple(keys, c.Strict), a: row[aPos], ids: row[c.NKeys+1].S}
+		ids, ok := parseIDs(row[c.NKeys+1])
+		if !ok || len(ids) == 0 {
+			return o, fw.V("listagg_ids_malformed", "%s: ids = %s", sql, row[c.NKeys+1])
+		}
+		b, seen := bucketNo[rr.ids]
+		if !seen {
+			b = len(buckets)
+			bucketNo[rr.ids] = b
+			var members []int
+			for _, id := range ids {
+				pp, ok := posOf[id]
+				if !ok {
+					return o, fw.V("group_has_foreign_row", "%s: partition %s contains an id that is not a row of the input", sql, rr.ids)
+				}
+				if bucketOf[pp] >= 0 {
+					return o, fw.V("row_in_two_groups", "%s: id %d is listed in two partitions", sql, id)
+				}
+				bucketOf[pp] = b
+				members = append(members, pp)
+			}
+			buckets = append(buckets, members)
+		}
+		rr.bucket = buckets[b]
+		// the row is a row of its partition
+		found := false
+		for _, pp := range rr.bucket {
+			if ref.C04IdenticalTuple(pres[pp].keys, keys) {
+				found = true
+				break
+			}
+		}
+		if !found {
+			return o, fw.V("distinct_row_not_from_input", "%s: result row %s / ids %s is not a row of that partition", sql, fmtTuple(keys), rr.ids)
+		}
+		res[i] = rr
+	}
+	for p, b := range bucketOf {
+		if b < 0 {
+			sig := "distinct_row_lost"
+			if anyCollisionShaped(pres[p].keys) {
+				sig = "key_delimiter_collision"
+			}
+			return o, fw.V(sig, "%s: the partition of input row id=%d %s is not in the result", sql, pres[p].id, fmtTuple(pres[p].keys))
+		}
+	}
+	// the partitions of the select-list functions against the reference
+	for i := range pres {
+		for j := i + 1; j < len(pres); j++ {
+			ni, nj := sub(pres[i].norm, c.SelPart), sub(pres[j].norm, c.SelPart)
+			same := bucketOf[i] == bucketOf[j]
+			if !same && ref.C04EStrictTuple(ni, nj, c.Strict) {
+				return o, fw.V("bucket_split", "%s (strict_equal=%v): rows id=%d %s and id=%d %s have equal PARTITION BY keys (%s) but are in different partitions", sql, c.Strict, pres[i].id, fmtTuple(pres[i].keys), pres[j].id, fmtTuple(pres[j].keys), kNames(c.SelPart))
+			}
+			if same && !ref.C04ELooseTuple(ni, nj, c.Strict) {
+				sig := "bucket_merges_unequal_rows"
+				if anyCollisionShaped(pres[i].keys, pres[j].keys) {
+					sig = "key_delimiter_collision"
+				}
+				return o, fw.V(sig, "%s (strict_equal=%v): rows id=%d %s and id=%d %s have different PARTITION BY keys (%s) but share a partition", sql, c.Strict, pres[i].id, fmtTuple(pres[i].keys), pres[j].id, fmtTuple(pres[j].keys), kNames(c.SelPart))
+			}
+		}
+	}
+	// a over exactly the partition
+	for _, rr := range res {
+		var xs []val.Val
+		for _, pp := range rr.bucket {
+			xs = append(xs, pres[pp].x)
+		}
+		bad := false
+		want := ""
+		switch c.AFn {
+		case "COUNT(*)":
+			want = strconv.Itoa(len(xs))
+			bad = rr.a.K != "I" || rr.a.AsInt() != int64(len(xs))
+		case "COUNT(x)":
+			want = strconv.Itoa(len(nonNull(xs)))
+			bad = rr.a.K != "I" || rr.a.AsInt() != int64(len(nonNull(xs)))
+		default:
+			fs := ref.C04Floats(xs)
+			if len(fs) == 0 {
+				want = "NULL"
+				bad = !rr.a.IsNull()
+			} else {
+				want = strconv.FormatFloat(ref.C04Sum(fs), 'g', -1, 64)
+				f, ok := numOf(rr.a)
+				bad = !ok || !ref.C04Close(f, ref.C04Sum(fs))
+			}
+		}
+		if bad {
+			return o, fw.V("aggregate_over_partition", "%s: partition ids [%s]: %s OVER = %s, expected %s", sql, rr.ids, c.AFn, rr.a, want)
+		}
+	}
+	// DISTINCT: equal rows collapsed, nothing else lost
+	for i := range res {
+		for j := i + 1; j < len(res); j++ {
+			if ref.C04EStrictTuple(res[i].norm, res[j].norm, c.Strict) {
+				return o, fw.V("distinct_result_not_distinct", "%s (strict_equal=%v): result rows %s and %s are equal (equal keys are in one partition, so a and ids are equal too)", sql, c.Strict, fmtTuple(res[i].keys), fmtTuple(res[j].keys))
+			}
+		}
+	}
+	for _, p := range pres {
+		ok := false
+		for _, rr := range res {
+			if ref.C04ELooseTuple(p.norm, rr.norm, c.Strict) {
+				ok = true
+				break
+			}
+		}
+		if !ok {
+			sig := "distinct_row_lost"
+			if anyCollisionShaped(p.keys) {
+				sig = "key_delimiter_collision"
+			}
+			return o, fw.V(sig, "%s (strict_equal=%v): input row id=%d %s is not represented in the result", sql, c.Strict, p.id, fmtTuple(p.keys))
+		}
+	}
+
+	// ORDER BY: asserted when every pair of key cells is either certainly equal or certainly different
+	determined := true
+	for i := 0; i < len(pres) && determined; i++ {
+		for j := i + 1; j < len(pres) && determined; j++ {
+			for k := 0; k < c.NKeys; k++ {
+				if ref.C04EStrict(pres[i].norm[k], pres[j].norm[k], c.Strict) != ref.C04ELoose(pres[i].norm[k], pres[j].norm[k], c.Strict) {
+					determined = false
+					break
+				}
+			}
+		}
+	}
+	collapsed := len(res) < len(pres)
+	if determined {
+		// reading 1: the function sees the rows DISTINCT has left (what ORDER BY sorts)
+		post := make([]ordVal, len(res))
+		for i, r := range res {
+			var part []ordRow
+			for _, q := range res {
+				if ref.C04EStrictTuple(sub(r.norm, c.OrdPart), sub(q.norm, c.OrdPart), c.Strict) {
+					part = append(part, ordRow{q.keys, q.a})
+				}
+			}
+			f, ok := ordValue(c.OrdFn, c.OrdArg, part)
+			post[i] = ordVal{f, !ok}
+		}
+		// reading 2: the function sees the rows before DISTINCT, like the functions of the select list
+		preA := make([]val.Val, len(pres))
+		for _, r := range res {
+			for _, pp := range r.bucket {
+				preA[pp] = r.a
+			}
+		}
+		early := make([]ordVal, len(res))
+		for i, r := range res {
+			var part []ordRow
+			for pp, q := range pres {
+				if ref.C04EStrictTuple(sub(r.norm, c.OrdPart), sub(q.norm, c.OrdPart), c.Strict) {
+					part = append(part, ordRow{q.keys, preA[pp]})
+				}
+			}
+			f, ok := ordValue(c.OrdFn, c.OrdArg, part)
+			early[i] = ordVal{f, !ok}
+		}
+		if !sortedBy(post, c.Desc) && !sortedBy(early, c.Desc) {
+			var got []string
+			for i, r := range res {
+				v := "NULL"
+				if !post[i].null {
+					v = strconv.FormatFloat(post[i].f, 'g', -1, 64)
+				}
+				got = append(got, fmtTuple(r.keys)+"="+v)
+				if i >= 14 {
+					got = append(got, "...")
+					break
+				}
+			}
+			return o, fw.V("order_by_analytic_partition", "%s (strict_equal=%v): the rows are not in the order of the ORDER BY function, neither computed over the rows after DISTINCT (row=value: %s) nor over the rows before it", sql, c.Strict, strings.Join(got, " "))
+		}
+		distinctVals := map[string]bool{}
+		for _, v := range post {
+			distinctVals[fmt.Sprintf("%v/%v", v.f, v.null)] = true
+		}
+		o.Classes = append(o.Classes, fmt.Sprintf("order_asserted:values=%s", sizeClass(len(distinctVals))))
+	} else {
+		o.Classes = append(o.Classes, "order_open")
+	}
+	if collapsed {
+		o.Classes = append(o.Classes, "distinct_collapsed")
+	}
+	if len(pres) >= 160 {
+		o.Classes = append(o.Classes, "large")
+	}
+	var keyTuples [][]val.Val
+	for _, p := range pres {
+		keyTuples = append(keyTuples, p.keys)
+	}
+	tr := traitsOf(keyTuples, c.NKeys, c.Strict)
+	finishOutcome(&o, tr, false)
+	if tr.nonTrivial() && collapsed {
+		o.Fingerprint = tr.fingerprint("distinct_order:"+c.AFn+":"+c.OrdFn+fmt.Sprintf(":%v:%v:%v", c.Desc, c.KeysFirst, determined), c.NKeys, c.Strict)
+	}
+	return o, nil
+}
+
+func TestC04DistinctOrder(t *testing.T) {
+	fw.Run(t, fw.Spec[ordCase]{
+		ID: "C04", Name: "distinct_order", Quick: 4000, Thorough: 80000,
+		Gen: genOrd, Check: checkOrd,
+		Rule: "table (two column layouts, temp/CSV) with 1-3 key columns from clusters reduced to certainly-equal spellings; SELECT DISTINCT keys (permuted), agg(x) OVER (PARTITION BY subset) AS a, LISTAGG(id) OVER (same) AS ids FROM t [WHERE] ORDER BY COUNT(*)|COUNT(k)|SUM(a)|COUNT(a) OVER (PARTITION BY subset) [DESC] [, keys]: the partitions read from ids vs E_strict/E_loose, a recomputed over them, DISTINCT survivors, and the row order must be sorted by the ORDER BY function computed with the reference partition over the rows after DISTINCT (or, second admissible reading, before it); non-trivial = DISTINCT removed a row and the group rule holds",
+		Assumptions: []string{tblAssumption,
+			"the manual does not say whether an analytic function in ORDER BY sees the rows before or after DISTINCT: both readings are accepted; the order among rows with equal function values is not asserted",
+			"the order is asserted only when no two key cells form an open pair"},
 	})
 }
